@@ -280,6 +280,11 @@ def _templates() -> List[dict]:
     add("kw-named", ["ns.f(", O(), "a=", K("true"), O(), ",", O(), "b=", K("null"), O(), ",", O(), "c=", K("false"), O(), ")"])
     add("kw-paren", ["(", O(), K("true"), O(), ")"] + _op("or") + ["(", O(), K("null"), O(), ")"])
     add("kw-lambda", ["a/", K("any"), "(", O(), "x", O(), ":", O(), K("true"), O(), ")"])
+    # literal CONTENT must survive every re-layout / re-casing of the text around it
+    add("str-inner-ws", ["name"] + _op("eq") + ["'a  b'"])
+    add("str-edge-ws", ["contains(", O(), "name", O(), ",", O(), "'  x '", O(), ")"] + _op("eq") + [K("true")])
+    add("str-keywords", ["name"] + _op("eq") + ["'NOT  Null and TRUE'"] + _op("and") + ["b"] + _op("ne") + [K("null")])
+    add("geo-inner-ws", ["geo.length(", O(), K("geography"), "'SRID=0;LineString(1  2, 3 4)'", O(), ")"] + _op("gt") + ["1"])
     add("lit-true", ["a"] + _op("eq") + [K("true")])
     add("lit-false", [K("false")] + _op("ne") + ["a"])
     add("lit-null", ["a"] + _op("eq") + [K("null")])
